@@ -274,7 +274,7 @@ func TestCheck(t *testing.T) {
 				t.Fatal(err)
 			}
 			if cs.Prop == "" {
-				cs.Prop = c.Prop
+				cs.Prop = c.Dispatch()
 			}
 			for _, p := range plansFor(cs.Prop, true) {
 				if p.name == cs.Plan {
@@ -306,7 +306,7 @@ func TestCheck(t *testing.T) {
 			return
 		}
 		var notes []string
-		for _, p := range plansFor(c.Prop, c.Thorough()) {
+		for _, p := range plansFor(c.Dispatch(), c.Thorough()) {
 			if only := os.Getenv("VERIF_PLAN"); only != "" && only != p.name {
 				continue // debugging aid: run a single plan
 			}
@@ -323,7 +323,7 @@ func TestCheck(t *testing.T) {
 				for _, h := range shapes {
 					c.State(h)
 				}
-				cs := Case{Prop: c.Prop, Plan: p.name, Cfg: p.cfg, Pre: p.pre, Hist: hist}
+				cs := Case{Prop: c.Dispatch(), Plan: p.name, Cfg: p.cfg, Pre: p.pre, Hist: hist}
 				if f != nil {
 					// re-execute before reporting
 					f2, _, _ := histRun(c, p.cfg, p.mon, p.pre, hist, false)
